@@ -5,6 +5,10 @@ import vlib
 from vlib import Infra
 
 
+class StopCheck(Exception):
+    pass
+
+
 class Ctx:
     def __init__(self, pid, tier, seed, level="model_checking"):
         self.pid, self.tier, self.seed, self.level = pid, tier, seed, level
@@ -116,7 +120,24 @@ class Ctx:
                 self.samples.append(dict(label=label or variant, cfg=b.cfg, steps=b.steps[:40]))
         for m in mism:
             self.violations.append((m, behs[m.bi], preamble, variant, label))
+        if stats["skipped"]:
+            self.extra["behaviours_not_run_after_repeated_hangs_or_crashes"] = self.extra.get("behaviours_not_run_after_repeated_hangs_or_crashes", 0) + stats["skipped"]
+        self.checkpoint()
         return mism, stats
+
+    def unlisted(self):
+        kf_path = os.path.join(vlib.VERIF, "known_findings.json")
+        known = []
+        if os.path.exists(kf_path):
+            known = [k for k in json.load(open(kf_path)).get("findings", []) if k.get("property") == self.pid and k.get("status") == "known"]
+        return [v for v in self.violations if not match_known(known, v[0], v[1], v[3])]
+
+    def checkpoint(self):
+        """fail fast: once a stage has produced a disagreement that no known finding explains, the verdict of the run is decided;
+        the remaining stages are not run (VERIF_FAILFAST=0 runs everything)"""
+        if os.environ.get("VERIF_FAILFAST", "1") != "0" and self.unlisted():
+            self.extra["stopped_after_first_violating_stage"] = True
+            raise StopCheck()
 
     # ---- finish: known findings, evidence, exit code
     def finish(self):
